@@ -11,8 +11,9 @@ RULE = ("dense images uint16/uint32/float32, shapes 1x1..64x64 (plus 2x65534 and
         "raw tosparse kernels, sortedness, permuted frames re-sorted, sparse_is_sorted return code on corrupted "
         "index lists; overlaps: two label images on one grid (1..N labels: disjoint, identical, partial, label at "
         "capacity, last pixels coinciding) through overlaps_linear, overlaps_matrix, overlaps() and the raw kernels "
-        "against a dense Counter; non-trivial = nnz >= 2 on >= 2 rows (round trip) or >= 2 overlapping label pairs "
+        "against a dense Counter; scan level: in-memory SparseScan objects through sinograms.properties.props / pairrow / pairscans (2-D peak table and overlaps between omega-adjacent frames and between two scan rows) against per-component sums and dense counts; non-trivial = nnz >= 2 on >= 2 rows (round trip) or >= 2 overlapping label pairs "
         "sharing a label (overlaps); distinct = hash of the case")
+WARMUP = ["ImageD11.sinograms.properties"]
 ASSUMPTIONS = ["empty selections are excluded: the library represents an empty frame as None (mask_to_coo returns 3)",
                "labels are 1..N with no zero label, as the overlap routines document"]
 
@@ -336,6 +337,140 @@ def check_ov(case, rec=None):
     return fails
 
 
+# ------------------------------------------------------------------ scan level: props / pairrow / pairscans
+
+@st.composite
+def scancases(draw):
+    nfr = draw(st.integers(1, 8))
+    ns = draw(st.integers(2, 16))
+    nf = draw(st.integers(2, 16))
+    fill = draw(st.sampled_from([0.05, 0.2, 0.5]))
+    seed = draw(st.integers(0, 2 ** 31 - 1))
+    order = draw(st.sampled_from(["ascending", "descending", "shuffled"]))
+    empty = draw(st.booleans())
+    return dict(nfr=nfr, ns=ns, nf=nf, fill=fill, seed=seed, order=order, empty=empty)
+
+
+def fake_scan(vol, omega):
+    """a SparseScan built in memory (the class normally reads an HDF5 file)"""
+    from ImageD11 import sparseframe
+    sc = object.__new__(sparseframe.SparseScan)
+    rows, cols, vals, nnz = [], [], [], []
+    for fr in vol:
+        i, j = np.nonzero(fr)
+        rows.append(i.astype(np.uint16))
+        cols.append(j.astype(np.uint16))
+        vals.append(fr[i, j].astype(np.float32))
+        nnz.append(len(i))
+    sc.names = ["row", "col", "intensity"]
+    sc.nnz = np.array(nnz)
+    sc.ipt = sparseframe.nnz_to_pointer(sc.nnz)
+    sc.row = np.concatenate(rows) if rows else np.zeros(0, np.uint16)
+    sc.col = np.concatenate(cols) if cols else np.zeros(0, np.uint16)
+    sc.intensity = np.concatenate(vals) if vals else np.zeros(0, np.float32)
+    sc.shape = vol.shape
+    sc.motors = {"omega": np.asarray(omega, float)}
+    sc.hname, sc.scan = "memory", "1.1"
+    return sc
+
+
+def check_scan(case, rec=None):
+    from ImageD11.sinograms import properties
+    from vf import oracles
+    rng = np.random.RandomState(case["seed"] % (2 ** 32))
+    nfr, ns, nf = case["nfr"], case["ns"], case["nf"]
+    vols = []
+    for r in range(2):
+        v = np.where(rng.random_sample((nfr, ns, nf)) < case["fill"], rng.randint(1, 200, (nfr, ns, nf)), 0)
+        if case["empty"] and nfr > 1:
+            v[rng.randint(nfr)] = 0
+        if not v.any():
+            v[0, 0, 0] = 5
+        vols.append(v)
+    omega = np.arange(nfr) * 0.5 + 10.0
+    if case["order"] == "descending":
+        omega = omega[::-1].copy()
+    elif case["order"] == "shuffled":
+        omega = rng.permutation(omega)
+    fails = []
+    scans, labs = [], []
+    for r, v in enumerate(vols):
+        sc = fake_scan(v, omega)
+        ok, res = guard(properties.props, sc, r, "cplabel")
+        if not ok:
+            return [exc_failure("properties.props", res)]
+        tab, pairs = res
+        # reference 2-D components per frame
+        ref = [oracles.components_scipy(fr > 0, 1) for fr in v]
+        L = np.zeros(v.shape, int)
+        for k in range(nfr):
+            s_, e_ = sc.ipt[k], sc.ipt[k + 1]
+            L[k][sc.row[s_:e_], sc.col[s_:e_]] = sc.labels[s_:e_]
+            if not oracles.same_partition(L[k], ref[k][0]) or sc.nlabels[k] != ref[k][1]:
+                fails.append(fail("scan_labels", "props/cplabel: frame %d labels are not the connected components"
+                                  % k, fn="props"))
+        if fails:
+            return fails
+        # peak table: one column per 2-D peak in frame order, label order inside a frame
+        exp = []
+        for k in range(nfr):
+            for lab in range(1, int(sc.nlabels[k]) + 1):
+                m = L[k] == lab
+                I = v[k][m].astype(np.int64)
+                ii, jj = np.nonzero(m)
+                exp.append((int(m.sum()), int(I.sum()), int((ii * I).sum()), int((jj * I).sum()), k + r * nfr))
+        exp = np.array(exp, np.int64).reshape(-1, 5).T
+        if tab.shape != exp.shape or not np.array_equal(tab, exp):
+            fails.append(fail("scan_table", "props: 2-D peak table (pixels, intensity, row and column moments, frame) "
+                              "differs from the per-component sums (%s vs %s)" % (tab.shape, exp.shape), fn="props"))
+        # pairs between frames adjacent in omega
+        oo = np.argsort(omega)
+        want = {}
+        for a, b in zip(oo[:-1], oo[1:]):
+            if sc.nnz[a] == 0 or sc.nnz[b] == 0:
+                continue
+            both = (L[a] > 0) & (L[b] > 0)
+            want[(r, a, r, b)] = collections.Counter(zip(L[a][both].tolist(), L[b][both].tolist()))
+        got = {}
+        for key, (ne, rcl) in pairs.items():
+            cnt = collections.Counter()
+            if ne:
+                for x, y, c_ in np.asarray(rcl).tolist():
+                    if (x, y) in cnt:
+                        fails.append(fail("dup_pair", "pairrow lists a label pair twice", fn="pairrow"))
+                    cnt[(x, y)] += c_
+            got[tuple(int(t) for t in key)] = cnt
+        if set(got) != set(want) or any(got[k] != want[k] for k in want):
+            fails.append(fail("scan_pairs", "pairrow: overlaps between omega-adjacent frames differ from the dense "
+                              "count (%d frame pairs expected, %d returned)" % (len(want), len(got)), fn="pairrow"))
+        scans.append(sc)
+        labs.append(L)
+    if not fails:
+        ok, pr = guard(properties.pairscans, scans[0], scans[1])
+        if not ok:
+            fails.append(exc_failure("properties.pairscans", pr))
+        else:
+            want = {}
+            for k in range(nfr):
+                if scans[0].nnz[k] == 0 or scans[1].nnz[k] == 0:
+                    continue
+                both = (labs[0][k] > 0) & (labs[1][k] > 0)
+                want[(0, k, 1, k)] = collections.Counter(zip(labs[0][k][both].tolist(), labs[1][k][both].tolist()))
+            got = {}
+            for key, (ne, rcl) in pr.items():
+                cnt = collections.Counter()
+                if ne:
+                    for x, y, c_ in np.asarray(rcl).tolist():
+                        cnt[(x, y)] += c_
+                got[tuple(int(t) for t in key)] = cnt
+            if set(got) != set(want) or any(got[k] != want[k] for k in want):
+                fails.append(fail("scan_pairs", "pairscans: overlaps between the two rows differ from the dense count",
+                                  fn="pairscans"))
+    if rec is not None:
+        rec.case(case, nfr >= 2 and case["fill"] >= 0.2, ["scan:" + case["order"]])
+    return fails
+
+
 BIGRT = [dict(spec=dict(kind="random", ns=2, nf=65534, seed=3, fill=0.01), maskkind="pattern", dtype="uint16",
               cutpos="zero", detmask=False),
          dict(spec=dict(kind="random", ns=65534, nf=2, seed=4, fill=0.01), maskkind="lastcol", dtype="float32",
@@ -351,7 +486,10 @@ def run_shard(rec):
                   lambda c: check_rt(c, rec))
     hyp_run(rec, "roundtrip", rtcases(), lambda c: check_rt(c, rec), max_examples=1000 if quick else 8000)
     hyp_run(rec, "overlaps", ovcases(), lambda c: check_ov(c, rec), max_examples=1000 if quick else 8000)
+    hyp_run(rec, "scan", scancases(), lambda c: check_scan(c, rec), max_examples=60 if quick else 600)
 
 
 def replay(sub, case, rec):
+    if sub == "scan":
+        return check_scan(case, rec)
     return check_ov(case, rec) if sub == "overlaps" else check_rt(case, rec)
